@@ -2,11 +2,11 @@
    Only statements, each closed by [exact] (short glue allowed), each followed by
    Print Assumptions. *)
 From Coq Require Import ZArith List Bool Lia.
-From Synnax Require Import Generated.Consts_C01 Cesium.Store Cesium.IndexSearch Cesium.Distance Cesium.Stamp
+From Synnax Require Import Cesium.LayoutOk Generated.Consts_C01 Cesium.Store Cesium.IndexSearch Cesium.Distance Cesium.Stamp
      Cesium.UnaryIter Cesium.UnaryWrite Cesium.Read Monitors.Mon_C01
      Cesium.IndexSearchProofs Cesium.DomIterProofs Cesium.DistanceProofs Cesium.UnaryIterViews
      Cesium.UnaryIterExact Cesium.SliceProofs Cesium.UnaryIterSpec Cesium.TruthProofs Cesium.ReadProofs
-     Cesium.UnaryWriteProofs Cesium.LayoutCheck Cesium.LegacyWitness.
+     Cesium.UnaryWriteProofs Cesium.LayoutCheck Cesium.LegacyWitness Cesium.DistanceChain.
 Import ListNotations.
 Local Open Scope Z_scope.
 
@@ -40,20 +40,26 @@ Theorem C01_distance_count : forall P k q a t,
 Proof. intros P k q a t HP Hq Hi Ha Ht. exact (distance_one_domain P k q HP Hq Hi a t Ha Ht). Qed.
 Print Assumptions C01_distance_count.
 
-(* slice_exact: sliceDomain on a data domain d (inside one index domain q, one sample per index
-   stamp of its range) with a view v returns the series whose range is d ∩ v and whose samples
-   are exactly those between the index offsets of the two ends of d ∩ v *)
-Theorem C01_slice_exact : forall P var k q d v,
-  lay P -> znth P k = Some q -> inc (d_data q) ->
+(* slice_exact: sliceDomain on a data domain d whose range the index resolves ([dist_ok]) and
+   which holds one sample per index stamp of its range, with a view v, returns the series whose
+   range is d ∩ v and whose samples are exactly those between the index offsets of the two
+   ends of d ∩ v ([offA], [offB] count index stamps from the start of d) *)
+Theorem C01_slice_exact : forall P var d v,
   t_s (d_tr d) < t_e (d_tr d) ->
-  t_s (d_tr q) <= t_s (d_tr d) /\ t_e (d_tr d) <= t_e (d_tr q) ->
-  dlen d = zlen (stamps_in (d_tr d) (d_data q)) ->
+  dist_ok P (t_s (d_tr d)) (t_e (d_tr d)) ->
+  dlen d = zlen (stamps_in (d_tr d) (stamps_of P)) ->
   t_s v < t_e v -> overlaps (d_tr d) v = true ->
   dser P var d v =
   Ok (Ser (TR (Z.max (t_s (d_tr d)) (t_s v)) (Z.min (t_e (d_tr d)) (t_e v)))
-          (firstn (Z.to_nat (offB q d v - offA q d v)) (skipn (Z.to_nat (offA q d v)) (d_data d)))).
-Proof. intros P var k q d v HP Hq Hi Hd Hin Hal Hv Hov. exact (dser_exact P var k q d HP Hq Hi Hd Hin Hal v Hv Hov). Qed.
+          (firstn (Z.to_nat (offB P d v - offA P d v)) (skipn (Z.to_nat (offA P d v)) (d_data d)))).
+Proof. intros P var d v Hd Hdist Hal Hv Hov. exact (dser_exact P var d Hd Hdist Hal v Hv Hov). Qed.
 Print Assumptions C01_slice_exact.
+
+(* ... and Distance resolves every range inside one index domain of a well-formed index *)
+Theorem C01_dist_ok_one_domain : forall P k q a e,
+  ilay P -> znth P k = Some q -> t_s (d_tr q) <= a < t_e (d_tr q) -> e <= t_e (d_tr q) -> dist_ok P a e.
+Proof. exact dist_ok_one_domain. Qed.
+Print Assumptions C01_dist_ok_one_domain.
 
 (* Read exactness.  For every stored layout satisfying [layout_ok] (see C10) and every
    half-open read range with 0 <= start <= end <= MAX — range ends between samples, on domain
@@ -61,16 +67,34 @@ Print Assumptions C01_slice_exact.
    Next(TimeSpanMax) ... over its unary iterator) returns, concatenated over its series,
    exactly the stored samples whose index stamps lie in the range, each once, in ascending
    time order.
-   _partial: (1) layouts in which a data domain spans several contiguous index domains are
-   outside [layout_ok]; (2) that the layout a history of writes and commits produces is
-   [layout_ok] with [layout_assoc = committed h] is not proved here: it is checked on every
-   run by the correspondence (model layout vs. implementation reads) together with the
-   monitor (implementation reads vs. [committed h]). *)
+   _partial: that the layout a history of writes and commits produces satisfies [layout_ok]
+   with [layout_assoc = committed h] (the write->layout refinement: domain index insert/update,
+   rollover, groups not writing their index) is not proved here: it is checked on every run by
+   the correspondence (model layout vs. implementation reads), the monitor (implementation
+   reads vs. [committed h]) and the evaluated guard (all generated histories end in layouts
+   accepted by layout_okb, whose soundness is C01_layout_check_sound). *)
 Theorem C01_read_exact_partial : forall P D var t,
   layout_ok P D -> valid_bounds t -> 0 <= t_s t ->
   UnaryIterSpec.frame_data (read_one P D var t) = read_spec (layout_assoc P D) t.
 Proof. intros P D var t HL Hb H0. exact (read_one_exact P D var HL t Hb H0). Qed.
 Print Assumptions C01_read_exact_partial.
+
+(* the decidable layout check implies the hypothesis (data domains within a contiguous run of
+   index domains, file rollovers of the index inside a data domain included) *)
+Theorem C01_layout_check_sound : forall P D, layout_okb P D = true -> layout_ok P D.
+Proof. exact layout_okb_sound. Qed.
+Print Assumptions C01_layout_check_sound.
+
+(* rollover_contiguous on the read side: Distance over a run of immediately contiguous index
+   domains counts the stamps of the range across the file boundaries *)
+Theorem C01_distance_run : forall L1 mid L2 q qe a t,
+  lay (L1 ++ q :: mid ++ qe :: L2) -> contig (q :: mid ++ [qe]) ->
+  inc (d_data q) -> inc (d_data qe) ->
+  t_s (d_tr q) <= a < t_e (d_tr q) -> t_s (d_tr qe) < t <= t_e (d_tr qe) ->
+  exists da, distance (L1 ++ q :: mid ++ qe :: L2) (TR a t) true = Ok da /\
+             pick_sample_offset da = run_between mid q qe a t.
+Proof. intros L1 mid L2 q qe a t HL Hc Hq Hqe Ha Ht. exact (distance_run L1 mid L2 q qe HL Hc Hq Hqe a t Ha Ht). Qed.
+Print Assumptions C01_distance_run.
 
 (* ... and [read_one] is what the model's DB.Read does on a database state *)
 Theorem C01_read_is_read_one : forall d k t,
@@ -79,7 +103,7 @@ Proof. intros. unfold read_chan, read_one. destruct (chan_layout d k) as [[P D] 
 Print Assumptions C01_read_is_read_one.
 
 (* the stored content ascends in time *)
-Theorem C01_stored_ascending : forall P D, ilay P -> lay D -> asc (layout_assoc P D).
+Theorem C01_stored_ascending : forall P D, inc (stamps_of P) -> lay D -> asc (layout_assoc P D).
 Proof. exact layout_assoc_asc. Qed.
 Print Assumptions C01_stored_ascending.
 
